@@ -46,9 +46,15 @@ func (lt *LogType) UnmarshalJSON(data []byte) error {
 		return err
 	}
 
-	*lt = LogTypeFromString(s)
+	// LogTypeFromString panics on an unknown name: a document is untrusted input
+	for _, known := range []LogType{SetMetadataLogType, NewTransactionLogType, RevertedTransactionLogType, DeleteMetadataLogType, InsertedSchemaLogType} {
+		if known.String() == s {
+			*lt = known
+			return nil
+		}
+	}
 
-	return nil
+	return fmt.Errorf("invalid log type '%s'", s)
 }
 
 func (lt LogType) String() string {
@@ -301,7 +307,7 @@ func (s *SavedMetadata) UnmarshalJSON(data []byte) error {
 	case strings.ToUpper(MetaTargetTypeTransaction):
 		id, err = strconv.ParseUint(string(x.TargetID), 10, 64)
 	default:
-		panic("unknown type")
+		return fmt.Errorf("unknown type '%s'", x.TargetType)
 	}
 	if err != nil {
 		return err
@@ -449,6 +455,9 @@ func HydrateLog(_type LogType, data []byte) (LogPayload, error) {
 	err := json.Unmarshal(data, &payload)
 	if err != nil {
 		return nil, err
+	}
+	if payload == nil { // the JSON document `null` resets the interface value
+		return nil, fmt.Errorf("missing payload for log of type '%s'", _type)
 	}
 
 	return reflect.ValueOf(payload).Elem().Interface().(LogPayload), nil
